@@ -132,9 +132,11 @@ class RealCache:
             line = f"unload name={name}"
         elif kind == "reopen":
             fc.executor.shutdown(wait=True)
+            if len(op) > 1:                 # another store object on the same directory, with another limit
+                self.max = op[1]
             self.fc = self.fcm.FileCache(max_memory=self.max, root_path=self.root)
             out = "done"
-            line = "reopen"
+            line = "reopen" + (f" max={op[1]}" if len(op) > 1 else "")
         else:
             raise ValueError(kind)
         return line, out + " " + _digest(self.fc, self.root)
@@ -153,8 +155,11 @@ def gen_ops(rng, n, keys, maxmem):
             ops.append(("get", k))
         elif r < 0.90:
             ops.append(("unload", k))
-        else:
+        elif r < 0.95:
             ops.append(("reopen",))
+        else:
+            # a smaller or larger limit than the files already on disk were written under
+            ops.append(("reopen", rng.choice([1, 2, 3, max(1, maxmem // 2), max(1, maxmem - 1), maxmem, maxmem + 1, 2 * maxmem])))
     return ops
 
 
@@ -180,12 +185,13 @@ def run_cache_sequence(ctx, ops, maxmem, drv, label):
             out = f["_"]
             # ---- property oracle (no model involved)
             mem = int(f["mem"])
+            cur = rc.max                    # the limit of the store object in use (a reopen may change it)
             ent_sum = sum(int(x.split("@")[1]) for x in f["entries"].split(",") if x)
-            if mem != ent_sum or mem < 0 or mem > maxmem:
+            if mem != ent_sum or mem < 0 or mem > cur:
                 ctx.oracle_fail("fcache:accounting", case,
-                                f"0 <= mem == sum(entries)={ent_sum} <= {maxmem}", f"mem={mem}")
+                                f"0 <= mem == sum(entries)={ent_sum} <= {cur}", f"mem={mem}")
             if op[0] == "update":
-                if len(op[2]) > maxmem:
+                if len(op[2]) > cur:
                     exp = "memerr"
                 else:
                     exp = "applied"
@@ -195,7 +201,7 @@ def run_cache_sequence(ctx, ops, maxmem, drv, label):
             elif op[0] == "get":
                 if op[1] not in oracle:
                     exp = "notfound"
-                elif len(oracle[op[1]]) > maxmem:
+                elif len(oracle[op[1]]) > cur:
                     exp = "memerr"
                 else:
                     exp = "data:" + _hex(oracle[op[1]])
